@@ -1,6 +1,6 @@
 """Obligations derived from the effect-ledger analysis (ledger.py): every exit of every entry point of the managed
 pool balances the books on the components a property is about."""
-from .ledger import Ledger, ZERO
+from .ledger import Ledger, UnmanagedLedger, ZERO
 from .engine import Undecided
 
 _cache = {}
@@ -57,7 +57,7 @@ def ledger_obligations(ctx, r, rule, comps, only=None, kinds=('return', 'unwind'
         if not cs:
             continue
         for kind in kinds:
-            es = [e for e in exits if e.kind == kind and 'dead' not in e.flags]
+            es = [e for e in exits if e.kind == kind and not any(f in e.flags for f in L.IGNORE_FLAGS)]
             if not es:
                 continue
             n += 1
@@ -82,4 +82,65 @@ def ledger_obligations(ctx, r, rule, comps, only=None, kinds=('return', 'unwind'
     ctx.count('ledger_cancel_edges', L.n_cancel_edges)
     ctx.count('ledger_entry_points', len(L.roots))
     ctx.floor(rule, 'ledger: entry point exit classes examined', n, 1)
+    ctx.floor(rule, 'ledger: events recognised', L.n_events, 35)
+    ctx.floor(rule, 'ledger: unwind edges of user code followed', L.n_user_unwinds, 10)
+    ctx.floor(rule, 'ledger: cancellation edges followed', L.n_cancel_edges, 10)
+    return L
+
+
+_ucache = {}
+
+
+def uledger_obligations(ctx, r, rule):
+    """the same for the unmanaged pool (four expressions, see UnmanagedLedger)"""
+    prog = ctx.prog
+    L = _ucache.get(id(prog))
+    if L is None:
+        L = UnmanagedLedger(prog, r)
+        cand = []
+        seen = set()
+        for b in prog.bodies.values():
+            if not L.is_local(b) or b.kind == 'Closure' or '_serde' in b.path or '::fmt' in b.path:
+                continue
+            if not (b.j.get('vis') == 'pub' or b.j.get('impl_trait') == 'std::ops::Drop'):
+                continue
+            root = L.coroutine_of_ctor(b) or b
+            if root.path not in seen:
+                seen.add(root.path); cand.append(root)
+        for must in (r.TRY_GET, r.TIMEOUT_GET, r.ADD, r.TRY_ADD, r.TAKE, r.OBJ_DROP):
+            if must.path not in seen:
+                seen.add(must.path); cand.append(must)
+        for b in cand:
+            L.summary(b)
+        mustp = {x.path for x in (r.TRY_GET, r.TIMEOUT_GET, r.ADD, r.TRY_ADD, r.TAKE, r.OBJ_DROP)}
+        L.roots = sorted([b for b in cand if b.path in mustp or (set(prog.region([b.path])) & L.touched)], key=lambda b: b.path)
+        _ucache[id(prog)] = L
+    n = 0
+    names = ('U1 object permits vs queue', 'U2 size vs objects', 'U3 size slots', 'U4 available')
+    for b in L.roots:
+        exits, _ = L.results[b.path]
+        for kind in ('return', 'unwind', 'cancel'):
+            es = [e for e in exits if e.kind == kind and not any(f in e.flags for f in L.IGNORE_FLAGS)]
+            if not es:
+                continue
+            n += 1
+            bad = [e for e in es if e.vec != L.ZERO]
+            detail = ''
+            if bad:
+                e = bad[0]
+                detail = '%s exit with ledger %s (%s) along: %s' % (kind, e.vec, '; '.join(names), ' -> '.join(L.witness(b, e))[:900])
+            label = {'return': 'returns', 'unwind': 'unwinds from a panic in user code', 'cancel': 'is abandoned at a suspension point'}[kind]
+            ctx.ob(rule, 'books balance when %s %s (open pool)' % (b.name.replace('deadpool::unmanaged::', ''), label), not bad, ctx.where(b), detail,
+                   construct='uledger:%s:%s' % (b.name, kind), sites=['%d exit states' % len(es)])
+    for b, line, msg in L.problems:
+        if 'drifts without bound' in msg:
+            ctx.ob(rule, 'no loop changes the books by a non-zero amount per iteration', False, ctx.where(b, line), msg, construct='uledger-drift:' + b.name)
+        else:
+            ctx.undecide(rule, 'ledger: %s at %s' % (msg, ctx.where(b, line)))
+    ctx.count('uledger_states', L.n_states)
+    ctx.count('uledger_events', L.n_events)
+    ctx.count('uledger_cancel_edges', L.n_cancel_edges)
+    ctx.count('uledger_entry_points', len(L.roots))
+    ctx.floor(rule, 'unmanaged ledger: entry point exit classes examined', n, 8)
+    ctx.floor(rule, 'unmanaged ledger: events', L.n_events, 20)
     return L
